@@ -115,6 +115,38 @@ check(
     "DESIGN.md §2.3, §3 C09",
 )
 
+check(
+    "C14",
+    "reference-monitor",
+    "exploration",
+    "runtime monitoring: history monitor (random assignment / meta / pre-task attempts interleaved with identifier requests on every harness-computed reachable node after submit or seal)",
+    "After dry-run submit, generate-only submit or seal (also cyclic graphs), every attempt of the three operations named in the statement on every node the harness's own shadow "
+    "model finds reachable must raise, and all identifiers and the job directory are re-read after every step and must equal their values at submission.",
+    "Trusted: reachability computed from the recipe (parameters, containers, task outputs and their tasks, pre/init tasks, cycles).",
+    "DESIGN.md §3 C14",
+)
+check(
+    "C15",
+    "reference-monitor",
+    "exploration",
+    "runtime monitoring: reference type validator beside Argument.validate on generated (type, value) pairs; removal monitor on submit in dry-run and in normal mode on the controlled scheduler",
+    "Classes with one parameter of a generated type are created inside xvmodels; conforming values must be accepted and read back equal after the documented coercions, anything "
+    "else must raise or (bool only) store a bool; a task graph with one required value removed at any nesting kind must be rejected by submit with the scheduler registry, unfinished "
+    "counter and job links unchanged.",
+    "Trusted: the reference validator (documented coercions only; bool exemption stated in the evidence).",
+    "DESIGN.md §3 C15",
+)
+check(
+    "C17",
+    "reference-monitor",
+    "exploration",
+    "runtime monitoring: direct inspection of generated values after every submission (containment, pairwise distinctness, reproducibility across two builds)",
+    "For every submission of every generated recipe the harness determines, from its own shadow model, which configurations that submission seals, reads their generated parameters and "
+    "checks that each resolves inside that task's job directory, that no two collide and that a second build yields the same paths.",
+    "Trusted: domain restrictions of the statement (plain file names, identifier-like keys).",
+    "DESIGN.md §3 C17",
+)
+
 NOT_APPLICABLE = []
 
 
